@@ -754,3 +754,5 @@ SPECS["C18"]["level_text"] += "; char_ascii_to_akai converts a byte string chara
 SPECS["C15"]["bounded"].append(("contracts.e2e_more", "e2e:C15-roland-cdda"))
 SPECS["C15"]["level_text"] += ". Added: BOUNDED truncation sweeps of a Roland image (cluster boundaries, header / table areas, random offsets) and of bin/cue images"
 SPECS["C15"]["not_covered"] = ["volume/partition table truncation handlers beyond PartitionAdapter._parse / FileAdapter._parse / _load_partitions as contracts"]
+
+SPECS["C11"]["level_text"] += "; the image-level interleaving monitor also covers a Roland image (incl. a time-reversed stream) and a bin/cue image"
